@@ -65,7 +65,9 @@ DecCount(i, f, d) == [shown |-> TRUE, ip |-> i, fd |-> d, fp |-> f]
 
 (* charge tokens: [t |-> "+3", q |-> 3] ; the text is sign followed by the magnitude (omitted for 1) *)
 ChargeTok(q) == [t |-> (IF q > 0 THEN "+" ELSE "-") \o (IF Abs(q) = 1 THEN "" ELSE ToString(Abs(q))), q |-> q]
-IsChargeTok(c) == c.q \in Int /\ c.q # 0 /\ c.t = ChargeTok(c.q).t
+\* a unit charge may also be spelled out: "+1" / "-1" (same denotation, same rendering)
+ChargeTokOne(q) == [t |-> (IF q > 0 THEN "+1" ELSE "-1"), q |-> q]
+IsChargeTok(c) == c.q \in Int /\ c.q # 0 /\ (c.t = ChargeTok(c.q).t \/ (Abs(c.q) = 1 /\ c.t = ChargeTokOne(c.q).t))
 
 (* compositions: functions from a set of atomic numbers to rationals *)
 EmptyC == <<>>
